@@ -274,6 +274,9 @@ class DiffAntisymRBF(DiffRBF):
         KS[:] += np.exp(-0.5 * dists)
         return KS * KT
 
+    def diag(self, X):
+        return np.diag(self(X))
+
     def k_and_deriv(self, X, Y=None):
         length_scale = _check_length_scale(X[:, 1:], self.length_scale)
         if Y is None:
